@@ -234,6 +234,11 @@ func Answer(req *dns.Msg, tag string, alwaysAD bool) (resp *dns.Msg) {
 	// from the response, so this is a precondition every real caller respects.
 	if opt != nil {
 		resp.SetEdns0(1232, do)
+		// The OPT record may stand anywhere in the additional section (RFC
+		// 6891, 6.1.1): for half of the names it comes first.
+		if n := len(resp.Extra); n > 1 && h&8 == 0 {
+			resp.Extra = append([]dns.RR{resp.Extra[n-1]}, resp.Extra[:n-1]...)
+		}
 	}
 
 	return resp
